@@ -166,6 +166,46 @@ def run(prog: Program, col: Collector, tier: str, refs: Optional[Refs] = None, c
         base_ok = base_ok and cache_ok
     col.check(base_ok, f"{mf.fq}::base", "the base is get_interpretation() read before entering, the cache is the caller's", "memoize() does not wrap the interpretation active at entry (or drops the caller's cache)", mf.loc())
 
+    # the cache a caller hands in is the cache that is used: Memoize.__init__ may replace it only when it `is None`
+    minit = prog.funcs.get("funsor.interpretations::Memoize.__init__")
+    if minit is None:
+        col.unresolved("funsor.interpretations::Memoize.__init__", "constructor not found", mi.loc())
+    else:
+        cache_attr = None
+        for a in cache_accesses:
+            if isinstance(a, ast.Attribute):
+                cache_attr = a.attr
+        cparam = None
+        stores = [n for n in walk_no_nested(minit.node) if isinstance(n, ast.Assign) and any(isinstance(t, ast.Attribute) and t.attr == cache_attr and isinstance(t.value, ast.Name)
+                                                                                              and t.value.id == minit.positional[0] for t in n.targets)]
+        for st in stores:
+            v = st.value
+            construct = f"{minit.fq}::{norm(st)}"
+            names = [x.id for x in ast.walk(v) if isinstance(x, ast.Name) and x.id in minit.positional[1:]]
+            if not names:
+                col.violation(construct, "the cache attribute is not derived from the constructor's cache parameter: a caller-supplied cache is ignored", minit.loc(st))
+                continue
+            cparam = names[0]
+            if isinstance(v, ast.BoolOp) or (isinstance(v, ast.IfExp) and not (isinstance(v.test, ast.Compare) and isinstance(v.test.ops[0], (ast.Is, ast.IsNot)))):
+                col.violation(construct, f"`{norm(v)}` replaces the caller's cache whenever it is falsy: an EMPTY dict handed to memoize(cache) is silently swapped for a private one, "
+                              "so results are not shared through it (repeated identical subexpressions are rebuilt)", minit.loc(st))
+                continue
+            # re-bindings of the parameter before the store must be under `<param> is None`
+            bad = None
+            for n in walk_no_nested(minit.node):
+                if isinstance(n, ast.Assign) and any(isinstance(t, ast.Name) and t.id == cparam for t in n.targets) and n.lineno < st.lineno:
+                    par = minit.module.parent.get(n)
+                    t = par.test if isinstance(par, ast.If) else None
+                    is_none = isinstance(t, ast.Compare) and len(t.ops) == 1 and isinstance(t.ops[0], ast.Is) and norm(t.left) == cparam \
+                        and isinstance(t.comparators[0], ast.Constant) and t.comparators[0].value is None and n in par.body
+                    isnot_none_else = isinstance(t, ast.Compare) and len(t.ops) == 1 and isinstance(t.ops[0], ast.IsNot) and norm(t.left) == cparam and n in par.orelse
+                    if not (is_none or isnot_none_else):
+                        bad = n
+            col.check(bad is None, construct, "the caller's cache is used unless it is None", f"the cache parameter is replaced under a condition other than `{cparam} is None` "
+                      f"(`{norm(bad) if bad is not None else ''}`): an empty dict supplied by the caller is dropped", minit.loc(st))
+        if not stores:
+            col.unresolved(f"{minit.fq}::cache", "no assignment to the cache attribute found", minit.loc())
+
     # ---------------------------------------------------------------- R03.4
     col.rule("R03.4", "reinterpreters rebuild each term from type(x) and its children in order", floor=2)
     rr = require_func(prog, "funsor.interpreter::recursion_reinterpret")
@@ -194,4 +234,10 @@ def run(prog: Program, col: Collector, tier: str, refs: Optional[Refs] = None, c
               "stack_reinterpret does not pass the reinterpreted children of each node in children(value) order", sr.loc())
     bad = [norm(n) for f in (rr, sr) for n in walk_no_nested(f.node) if isinstance(n, ast.Call) and isinstance(n.func, ast.Name) and n.func.id in ("reversed", "sorted", "set")]
     col.check(not bad, "funsor.interpreter::reinterpreters::no reordering", "no reversed/sorted/set round-trip on children", f"children are reordered: {bad}", rr.loc())
+    # building under `normalize` and reinterpreting eagerly agrees with eager only if the normalising rewrites preserve value
+    from . import algebra
+    cat = cat or Catalogue(prog, refs)
+    algebra.r_unit_elimination(prog, col, refs, cat, "R03.5")
+    algebra.r_inverse_rules(prog, col, refs, cat, "R03.6")
+    algebra.r_same_op(prog, col, refs, cat, "R03.7")
     return col
